@@ -84,7 +84,9 @@ fn check_bar(bar: &str, chars: &[char], cwidth: usize, n_cols: usize, len: Optio
             return Err(Fail::new("fraction_exact", format!("fraction() = {fraction} for pos {pos}, len {l}: must be 0 at 0, 1 at pos >= len and strictly between otherwise")));
         }
     }
-    let small = len.map_or(true, |l| l <= 1 << 20);
+    // (for pos < len <= 2^24 the f32 quotient is at most 1 - 2^-24 and its product with any cell count
+    // rounds below the cell count, so 'full only when pos >= len' is exact up to 2^24 as the statement says)
+    let small = len.map_or(true, |l| l <= 1 << 24);
     let full = match len {
         Some(l) => pos >= l,
         None => false,
@@ -243,6 +245,8 @@ fn len_pos_strategy() -> BoxedStrategy<(Option<u64>, u64)> {
         3 => (0u32..25).prop_flat_map(|k| 1u64..=(1u64 << k)).prop_flat_map(|l| {
             (Just(Some(l)), prop_oneof![Just(l), Just(l + 1), Just(l - 1), 0..=l, Just(l / 3), Just(u64::MAX)])
         }),
+        // just below completion for lengths between 2^22 and 2^24
+        2 => ((1u64 << 22)..=(1u64 << 24), 1u64..4).prop_map(|(l, d)| (Some(l), l - d)),
         3 => (0u32..64).prop_flat_map(|k| {
             let l = 1u64 << k;
             (Just(Some(l)), prop_oneof![0..=l, Just(l.saturating_sub(1)), Just(l + 1), Just(l / 2), Just(1u64)])
@@ -256,7 +260,7 @@ fn len_pos_strategy() -> BoxedStrategy<(Option<u64>, u64)> {
 }
 
 fn geo_strategy() -> BoxedStrategy<GeoCase> {
-    let width = prop_oneof![6 => 0u32..80, 2 => 80u32..1000, 1 => 1000u32..=65535];
+    let width = prop_oneof![2 => 0u32..6, 5 => 0u32..80, 2 => 80u32..1000, 1 => 1000u32..=65535];
     let wide = proptest::option::weighted(
         0.35,
         (prop_oneof![3 => 1u16..60, 1 => 60u16..300], "[a-z\\[ \u{e9}\u{4e16}]{0,8}", "[a-z\\] \u{e9}\u{4e16}]{0,8}"),
@@ -368,7 +372,7 @@ pub fn property() -> Property {
         level: "exploration",
         assumptions: &[
             "filled == floor(fraction*cells) is checked against the library's own f32 fraction() with one f32 ulp of the product tolerated",
-            "'full only when pos >= len' and 'partial cell present' are required for len <= 2^20 (f32 exact enough); beyond that only the tolerance law, empty-at-0 and full-at-pos>=len",
+            "'full only when pos >= len' and 'partial cell present' are required for len <= 2^24 (f32 exact enough); beyond that only the tolerance law, empty-at-0 and full-at-pos>=len",
             "with exactly two progress characters the partial cell is drawn with the background character and is not distinguishable",
             "progress characters are distinct single-char clusters (default feature set segments by char)",
         ],
